@@ -49,6 +49,35 @@ claim('C18',
       "Rocq proof over hand-written executable model + vm_compute correspondence; generated real-number model for to_180_range",
       "DESIGN.md 4/C18")
 
+claim('C14',
+      "Theorems about the hand-written executable model Model/SensorModel.v of inertial_sensor.py (EstimationModel "
+      "constructor loops, output_matrix, estimate state machine, Parameters.apply with the two random streams as "
+      "explicit arrays, data_frame, from_EstimationModel) over canonical rationals, for EVERY parameter value and hence "
+      "every one of the 2^18 enable masks (induction on the constructor loops, not enumeration): layout/dimensions/"
+      "names/ordering, constructor error case, names agree with the simulator table, output_matrix x = simulated error, "
+      "correct_increments undoes apply over irregular series, accumulation of updates, squared noise coefficients = "
+      "noise^2 dt / walk^2 dt = J v^2 J^T dt / G q^2 G^T dt. All closed under the global context. The model is tied to "
+      "the code by a correspondence run (2064 masks x ~9 operations quick; all 2^18 masks thorough; dyadic data so "
+      "binary64 = Q; compared exactly inside Coq by vm_compute). Var(sum c_j xi_j) = sum c_j^2 for independent samples "
+      "is assumed, not proved; negative standard deviations are outside the modelled domain.",
+      COMMON_NOTE + "Model tie: generator quality bounds the correspondence (distribution in the evidence file); "
+      "np.linalg.solve compared with tolerance 2^-36.",
+      "Rocq proof (induction over constructor loops) on hand-written executable model + vm_compute correspondence",
+      "DESIGN.md 4/C14")
+
+claim('C15',
+      "Theorems over the reals about the per-row formulas of strapdown.compute_increments_from_imu GENERATED from "
+      "/repo (both sensor types, traced on a 3-sample symbolic IMU table with symbolic stamps) against the "
+      "hand-written Peano-Baker series spec (Spec/PeanoBaker.v: unique series solution of C' = C[w x], u' = C f): for "
+      "signals linear in time theta = a t + b t^2/2 + (a x b) t^3/12 and exp[theta x] = C_PB mod t^4 (all entries); "
+      "dv - u_PB = -(a x (a x d)) t^3/6 exactly; same for increment type with equal adjacent intervals; exact formula "
+      "of the discrepancy for unequal intervals (recorded KNOWN-FINDING); rows/stamps structure for every n (list "
+      "model). Partial: the order statement for general smooth (sinusoidal) signals needs Taylor's theorem with "
+      "remainder (not formalised) and is supported by measured error slopes only.",
+      COMMON_NOTE + "Translator validated against the real function each run (exact equality on 60 inputs per type).",
+      "Rocq proof over generated real-number model (translator: symbolic tracing) against a hand-written series spec",
+      "DESIGN.md 4/C15")
+
 REASON_TODO = "check not built yet (framework under construction; see DESIGN.md section 4 for the planned proof)"
 
 
